@@ -365,25 +365,49 @@ def r1(fx):
 
 @rule('C16', 'R2', 8, 'escape tables: MeCard maps \\ ; : " to backslash + char; vCard tables leave no CR/LF; validators cannot match a line break and end in \\Z')
 def r2(fx):
-    me = C(fx, '_MECARD_ESCAPE', 'helpers')
+    # the escaping functions, interpreted on every single character of a probe alphabet and on mixed strings (a translation
+    # table and a character-class substitution are both character-by-character maps; what is decided is that map)
+    it = Interp(max_steps=20_000_000)
+    alphabet = [chr(i) for i in range(0x300)] + ['\u20ac', '\u3042', '\u2028', '\u2029', '\x85', '\U0001f600']
+    mixed = ['a;b:c"d\\e', '\\\\;;', 'x\r\ny,z;', ';', '', 'plain text 123', ',;:"\\\r\n' * 2]
+
+    def table(fname, arg=lambda x_: x_):
+        f = make_callable(fx.forest, 'helpers', fname, it)
+        out = {}
+        for x_ in alphabet + mixed:
+            try:
+                out[x_] = f(arg(x_))
+            except PyRaise as ex:
+                out[x_] = ex
+        return out
+    me = table('_escape_mecard')
+    mfn = fx.fn('helpers', '_escape_mecard')
     for ch in ('\\', ';', ':', '"'):
-        yield ob(f'MeCard escape of {ch!r}', me.get(ord(ch)) == '\\' + ch, fx.forest.module_assign('helpers', '_MECARD_ESCAPE'),
-                 where='helpers._MECARD_ESCAPE', got=me.get(ord(ch)), want='\\' + ch)
-    extra = {k: v for k, v in me.items() if not (isinstance(v, str) and v == '\\' + chr(k))}
-    yield ob('MeCard table: every entry is backslash + the same character (un-escaping is removal of one backslash)', not extra,
-             fx.forest.module_assign('helpers', '_MECARD_ESCAPE'), where='helpers._MECARD_ESCAPE', got=extra, want={})
-    for name in ('_VCARD_ESCAPE', '_VCARD_ESCAPE_NEWLINE'):
-        t = C(fx, name, 'helpers')
-        bad = []
-        for ch in ('\r', '\n'):
-            v = t.get(ord(ch), ch)
-            if v is not None and ('\r' in v or '\n' in v):
-                bad.append((ch, v))
-        bad += [(chr(k), v) for k, v in t.items() if v is not None and ('\r' in v or '\n' in v) and chr(k) not in '\r\n']
-        yield ob(f'{name}: no CR/LF survives translation', not bad, fx.forest.module_assign('helpers', name), where=f'helpers.{name}', got=bad, want=[])
-    vc = C(fx, '_VCARD_ESCAPE', 'helpers')
-    yield ob('vCard table escapes , and ;', vc.get(ord(',')) == '\\,' and vc.get(ord(';')) == '\\;', fx.forest.module_assign('helpers', '_VCARD_ESCAPE'),
-             where='helpers._VCARD_ESCAPE', got=(vc.get(ord(',')), vc.get(ord(';'))), want=('\\,', '\\;'))
+        yield ob(f'MeCard escape of {ch!r}', me[ch] == '\\' + ch, mfn, got=me[ch], want='\\' + ch)
+    extra = {k: v for k, v in me.items() if len(k) == 1 and k not in '\\;:"' and v != k and v != '\\' + k}
+    homo = {k: v for k, v in me.items() if len(k) != 1 and v != ''.join(me[c] if isinstance(me[c], str) else '?' for c in k)}
+    yield ob('MeCard escaping: every other character is kept or becomes backslash + the same character (un-escaping is removal of one backslash); strings character by character',
+             not extra and not homo, mfn, got=dict(list(extra.items())[:3] + list(homo.items())[:2]), want={})
+    vc = table('_escape_vcard')
+    vfn = fx.fn('helpers', '_escape_vcard')
+    bad = [(k, v) for k, v in vc.items() if not isinstance(v, str) or '\r' in v or '\n' in v]
+    bad += [(k, v) for k, v in vc.items() if len(k) != 1 and isinstance(v, str) and v != ''.join(vc[c] if isinstance(vc[c], str) else '?' for c in k)]
+    bad += [(k, v) for k, v in vc.items() if len(k) == 1 and k not in ',;\r\n' and v != k]
+    yield ob('_VCARD_ESCAPE: no CR/LF survives translation', not bad, vfn, got=bad[:3], want=[])
+    # the structured N value: line breaks only
+    vcard = make_callable(fx.forest, 'helpers', 'make_vcard_data', it)
+    bad = []
+    for nm in ('Doe;John', 'Doe\r\nX:1;John', 'A\nB', 'A\rB', 'a,b;c'):
+        try:
+            txt = vcard(nm, 'x')
+            nline = [ln for ln in txt.split('\r\n') if ln.startswith('N:')]
+            want_n = 'N:' + nm.replace('\r', '').replace('\n', '\\n')
+            if nline != [want_n] or txt.split('\r\n')[:3] != ['BEGIN:VCARD', 'VERSION:3.0', want_n]:
+                bad.append((nm, nline))
+        except PyRaise as ex:
+            bad.append((nm, f'raises {ex.name}'))
+    yield ob('_VCARD_ESCAPE_NEWLINE: no CR/LF survives translation', not bad, fx.fn('helpers', 'make_vcard_data'), got=bad[:3], want=[])
+    yield ob('vCard table escapes , and ;', vc[','] == '\\,' and vc[';'] == '\\;', vfn, got=(vc[','], vc[';']), want=('\\,', '\\;'))
     fn = fx.fn('helpers', 'make_vcard_data')
     for p, rxname in sorted(_validators(fx, fn).items()):
         patn = _regex_of(fx, rxname)
